@@ -21,7 +21,14 @@ PAIRS = [
  (True, "def f(v):\n    return v and 1 or 0", "def f(v):\n    return 1 if v else 0"),
  (True, "def f(s, x):\n    if not s.MIN < len(x) < s.MAX:\n        raise E()\n    return 1", "def f(s, x):\n    n = len(x)\n    if n <= s.MIN or n >= s.MAX:\n        raise E()\n    return 1"),
  (True, "def f(e):\n    if e in (0, -1):\n        return 1\n    return 2", "def f(e):\n    if e == 0 or e == -1:\n        return 1\n    return 2"),
+ # flag carried to a shared tail == decisions taken in the arms
+ (True, "def f(s, n):\n    while True:\n        r = s.read(n)\n        if r is None:\n            yield U()\n        elif not r:\n            raise E()\n        elif len(r) < n:\n            m = s.read(1)\n            if m is not None and not m:\n                raise E()\n            yield U()\n        else:\n            break\n    yield r",
+        "def f(s, n):\n    while True:\n        r = s.read(n)\n        if r is None:\n            ended = False\n        elif not r:\n            ended = True\n        elif len(r) < n:\n            m = s.read(1)\n            ended = m is not None and not m\n        else:\n            break\n        if ended:\n            raise E()\n        yield U()\n    yield r"),
  # ---------------- must NOT be proven equivalent
+ (False, "def f(s, n):\n    r = s.read(n)\n    if r is None:\n        ended = False\n    elif not r:\n        ended = True\n    else:\n        ended = False\n    if ended:\n        raise E()\n    return r",
+         "def f(s, n):\n    r = s.read(n)\n    if r is None:\n        ended = True\n    elif not r:\n        ended = True\n    else:\n        ended = False\n    if ended:\n        raise E()\n    return r"),
+ (False, "def f(a, b):\n    ok = a is not None and not b\n    if ok:\n        raise E()\n    return 1", "def f(a, b):\n    ok = a is not None or not b\n    if ok:\n        raise E()\n    return 1"),
+ (False, "def f(a, g):\n    ok = a.x and g\n    a.m()\n    if ok:\n        return 1\n    return 2", "def f(a, g):\n    a.m()\n    if a.x and g:\n        return 1\n    return 2"),
  (False, "def f(nt, v, i):\n    if nt and nt[i].isOptional and not v[i].isValue:\n        return 1\n    return 2", "def f(nt, v, i):\n    if not v[i].isValue and nt and nt[i].isOptional:\n        return 1\n    return 2"),
  (False, "def f(v, b):\n    return v and 0 or b", "def f(v, b):\n    return 0 if v else b"),
  (False, "def f(a, b):\n    if a <= b:\n        return 1\n    return 2", "def f(a, b):\n    if not b < a:\n        return 1\n    return 2"),
